@@ -134,6 +134,9 @@ pub fn oracle(case: &Case, res: &SpResult) -> (Option<(String, String)>, Vec<&'s
     // (only when the run ended quiescent: everything transmitted was acknowledged, so nothing but a
     // stall can explain buffered bytes)
     let all_sent_acked = obs.unacked_count(&obs.st) == 0;
+    // (a size probe that expired is re-cut under the same number and its tail travels under the next ones: count
+    // every number with the size of its final cut)
+    let first_tx_bytes: u64 = obs.segs.values().map(|g| *g.lens.last().unwrap_or(&0) as u64).sum();
     if res.write_err.is_none() && res.read_err.is_none() && first_tx_bytes != written_total && !case.window_limited && rep.indeterminate_from.is_none() && all_sent_acked {
         viol!("bytes-not-transmitted", "{} bytes were written but first transmissions carry {} bytes although the peer acknowledged everything repeatedly at the end", written_total, first_tx_bytes);
     }
@@ -254,7 +257,7 @@ impl CheckDef for Sp {
 pub fn run(ctx: &mut Ctx) {
     ctx.rule("SP: generated write-size sequences (1 B..5*mss, up to 40/80 writes) with gaps, scripted peer ACK timings (immediate, delayed, batched, one at a time), both Nagle settings, with and without MTU probing, peer window huge or small (window_limited class: only 'no byte lost'). Oracle: Nagle on => no first transmission smaller than the usable segment size while earlier data is unacknowledged unless the window limits it; the held tail leaves at the instant the pipe drains; Nagle off (no probing) => after every write everything buffered is sent at that instant within the slow-start allowance; concatenation of first transmissions == bytes written. non-trivial = a write smaller than mss issued while data was outstanding; distinct by hash of (segment length, #unacked) sequence");
     ctx.replay_corpus::<Sp>();
-    ctx.run_generated::<Sp>(ctx.tier.pick(6_000, 250_000));
+    ctx.run_generated::<Sp>(ctx.tier.pick(60_000, 2_500_000));
 }
 
 pub fn replay(v: &Value) -> Option<i32> {
